@@ -64,6 +64,7 @@ class Report:
         self.assumptions: List[str] = []
         self.explanation = ""
         self.pins: List[str] = []
+        self.failed_pins: List[str] = []
 
     # -- recording -----------------------------------------------------------
     def ok(self, rule: str, where: str, what: str, nontrivial: bool = True) -> None:
@@ -94,8 +95,18 @@ class Report:
 
         self.pins.append(f"{name}: {count} (min {minimum})")
         if count < minimum:
-            raise AnalysisError(f"rule '{name}' matched {count} instances, fewer than the {minimum} confirmed by hand; "
-                                f"the anchored code has changed shape - analysis cannot be trusted")
+            self.failed_pins.append(f"rule '{name}' matched {count} instances, fewer than the {minimum} confirmed by hand; "
+                                    f"the anchored code has changed shape - analysis cannot be trusted")
+
+    def check_pins(self) -> None:
+        """a failed pin makes the run an ANALYSIS-ERROR - unless a violation was positively identified,
+        which stands on its own."""
+        from .model import AnalysisError
+
+        if self.failed_pins and not self.findings:
+            raise AnalysisError("; ".join(self.failed_pins))
+        for p in self.failed_pins:
+            self.note("pin not met (reported violations stand on their own): " + p)
 
     # -- finish --------------------------------------------------------------
     def finish(self) -> int:
